@@ -2455,3 +2455,45 @@ func ruleContextHeight(c *Ctx) {
 	}
 	c.Floor("reads of the ledger's height inside interop.Context's accessors", nAcc, 3)
 }
+
+// ---------------------------------------------------------------------------
+// historic-resolves-historic (C03): an RPC helper that takes an optional state root answers for *that* root when it is
+// given. Resolving the contract (hash -> id) through the live contract state there is right as long as the contract
+// still exists; after ContractManagement.destroy the live lookup fails (or, after a redeploy under the same hash,
+// answers with another id) while the root still commits to the contract's storage. In every function of the RPC
+// server with a variadic state-root parameter, a call of the live contract-state accessor is control-dependent on
+// the absence of the root.
+func ruleHistoricResolvesHistoric(c *Ctx) {
+	n := 0
+	for _, fd := range c.P.AllFuncDecls() {
+		if fd.Decl.Body == nil || pkgRel(fd.Pkg.Types) != "pkg/services/rpcsrv" {
+			continue
+		}
+		sig := fd.Obj.Type().(*types.Signature)
+		rootIdx := -1
+		if sig.Variadic() && sig.Params().Len() > 0 {
+			last := sig.Params().At(sig.Params().Len() - 1)
+			if sl, ok := last.Type().(*types.Slice); ok && namedTypeIs(sl.Elem(), "pkg/util", "Uint256") {
+				rootIdx = sig.Params().Len() - 1
+			}
+		}
+		if rootIdx < 0 {
+			continue
+		}
+		f := c.P.NewFuncCFG(fd)
+		n++
+		sites := f.CallSites("pkg/services/rpcsrv.(Ledger).GetContractState", "pkg/core.(*Blockchain).GetContractState")
+		key := "historic-resolves-historic." + FuncKey(fd.Obj)
+		if len(sites) == 0 {
+			c.OK(key, c.P.Pos(fd.Decl.Pos()), "no live contract-state lookup in a function that takes a state root")
+			continue
+		}
+		res := f.CheckGate(f.Entry(), blocksOf(sites), Guard{ID: "no-root", Doc: "the live lookup is made only when no root was given", Alts: [][]string{{fmt.Sprintf("param#%d", rootIdx)}}, WholeOpen: true}, nil)
+		if res.OK {
+			c.OK(key, c.P.Pos(sites[0].call.Pos()), "the live contract state is consulted only when no state root was given")
+		} else {
+			c.Fail(key, c.P.Pos(sites[0].call.Pos()), FuncKey(fd.Obj)+" resolves the contract through the live contract state although a state root may have been given: historic storage requests by hash fail ('Unknown contract') for a contract destroyed after that root, whose storage the root still commits to")
+		}
+	}
+	c.Floor("RPC helpers with an optional state root", n, 1)
+}
